@@ -201,7 +201,7 @@ const mapdetRuleText = "mapdet: every range over a map, maps.Keys/Values result,
 // detEntries lists, per property, the API entry points whose results must not
 // depend on iteration order / clock / schedule.
 var detEntries = map[string][]string{
-	"C07": {"(*opentype/gtab.Context).Apply", "(*sfnt.Layouter).Layout", "opentype/gtab.NewContext"},
+	"C07": {"(*opentype/gtab.Context).Apply", "(*sfnt.Layouter).Layout", "opentype/gtab.NewContext", "(*sfnt.Font).NewLayouter", "(*opentype/gtab.Info).FindLookups"},
 	"C08": {"(*opentype/gtab.Info).Encode", "opentype/gtab.Read", "(*opentype/gdef.Table).Encode", "opentype/gdef.Read",
 		"(opentype/coverage.Table).Encode", "(opentype/coverage.Table).EncodeLen", "opentype/coverage.Read",
 		"(opentype/coverage.Set).ToTable", "opentype/coverage.ReadSet",
